@@ -264,6 +264,10 @@ def typed_checks(prog):
         R_ = T['UDICT_TYPE_RATIONAL'] if typ is None else T['UDICT_TYPE_CLOCK_RATE']
         for num, den in ((0, 1), (1, 2), (-1, 1001), (25, 1), (-(1 << 40), 3), ((1 << 62), (1 << 63) + 5), (-0x0123456789abcdef, 0xfedcba9876543210)):
             cases.append(('rational', name, R_, (num, den)))
+    # a string taken from the dictionary itself (a pointer into its storage) stored back under the same or another name
+    for full, k in (('block.mpeg2video.pic.', 6), ('block.mpeg2video.pic.', 0), ('ab', 1)):
+        cases.append(('string-alias-same', 'x.n', T['UDICT_TYPE_STRING'], (full, k)))
+        cases.append(('string-alias-other', 'x.n', T['UDICT_TYPE_STRING'], (full, k)))
     for kind, name, typ, v in cases:
         inst = '%s:%s:%s' % (kind, name or 'shorthand', v)
         what = None
@@ -282,6 +286,32 @@ def typed_checks(prog):
                     gn = gn - (1 << 64)
                 if r != 0 or r2 != 0 or (gn, got[1]) != (v[0], v[1]):
                     what = 'rational %d/%d written with udict_set_rational reads back as %s/%s (errors %r %r)' % (v[0], v[1], gn, got[1], r, r2)
+            elif kind.startswith('string-alias'):
+                full, k = v
+                other = m.cstr('y.other')
+                r = ctx.run(m, 'udict_set_string', [d, m.cstr(full), typ, nm])
+                ctx.run(m, 'udict_set_unsigned', [d, 0x0102030405060708, T['UDICT_TYPE_UNSIGNED'], m.cstr('z.after')])
+                if kind == 'string-alias-other':
+                    ctx.run(m, 'udict_set_string', [d, m.cstr('q'), typ, other])
+                    ctx.run(m, 'udict_set_unsigned', [d, 0x1112131415161718, T['UDICT_TYPE_UNSIGNED'], m.cstr('z.last')])
+                p, e = m.outvar('p', None)
+                r2 = ctx.run(m, 'udict_get_string', [d, p, typ, nm])
+                src = e['p']
+                if not (isinstance(src, tuple) and src[0] == 'p') or r != 0 or r2 != 0:
+                    what = 'string %r cannot be read back (errors %r %r)' % (full, r, r2)
+                else:
+                    dst = nm if kind == 'string-alias-same' else other
+                    r3 = ctx.run(m, 'udict_set_string', [d, ('p', src[1], src[2] + k), typ, dst])
+                    p, e = m.outvar('p', None)
+                    r4 = ctx.run(m, 'udict_get_string', [d, p, typ, dst])
+                    got = m.read_str(e['p']) if isinstance(e['p'], tuple) and e['p'][0] == 'p' else None
+                    if r3 != 0 or r4 != 0 or got != full[k:]:
+                        what = 'udict_set_string given a pointer into the dictionary itself (octet %d of the value of %r): the attribute reads back as %r, the string passed was %r (errors %r %r)' % (
+                            k, name, got, full[k:], r3, r4)
+                    p, e = m.outvar('p', None)
+                    r5 = ctx.run(m, 'udict_get_unsigned', [d, p, T['UDICT_TYPE_UNSIGNED'], m.cstr('z.after')])
+                    if not what and (r5 != 0 or e['p'] != 0x0102030405060708):
+                        what = 'after storing a string taken from the dictionary itself another attribute reads back as %r' % (e['p'],)
             elif kind == 'string':
                 r = ctx.run(m, 'udict_set_string', [d, m.cstr(v), typ, nm])
                 p, e = m.outvar('p', None)
